@@ -118,7 +118,11 @@ func makeSample(kind string, tag string, seed uint64) (core.Sample, string, time
 	s.SetReceiveTime(time.Duration(v(5)) * time.Microsecond)
 	s.SetRequestBytes(v(6))
 	s.SetResponseBytes(v(7))
-	s.SetUserNet(v(8) % 1000)
+	net := v(8) % 1000
+	if v(11)%8 == 0 {
+		net = -1 - net%50 // a gun may report any integer: a negative one is written with its sign
+	}
+	s.SetUserNet(net)
 	s.SetUserProto(100 + v(9)%500)
 	id := uint64(v(10))
 	s.SetID(id)
@@ -128,7 +132,7 @@ func makeSample(kind string, tag string, seed uint64) (core.Sample, string, time
 	}
 	ms := ts.UnixNano() / 1e6
 	// documented order: time, tag, interval_real, connect, send, latency, receive, interval_event, size_out, size_in, net_code, proto_code
-	line := fmt.Sprintf("%d.%03d\t%s\t%d\t%d\t%d\t%d\t%d\t%d\t%d\t%d\t%d\t%d", ms/1000, ms%1000, t, v(1), v(2), v(3), v(4), v(5), 0, v(6), v(7), v(8)%1000, 100+v(9)%500)
+	line := fmt.Sprintf("%d.%03d\t%s\t%d\t%d\t%d\t%d\t%d\t%d\t%d\t%d\t%d\t%d", ms/1000, ms%1000, t, v(1), v(2), v(3), v(4), v(5), 0, v(6), v(7), net, 100+v(9)%500)
 	return s, line, ts
 }
 
@@ -246,6 +250,10 @@ func runC06A(r *R) {
 	// disk fault: whatever the aggregator makes of it, the output holds whole, valid lines of reported samples only
 	encFault := sp.Kind == "jsonlines" && !faulty && plan.Delay == 0 && f.Draw(8) == 0
 	encFired := false
+	stale := f.Draw(5) == 0
+	if stale {
+		r.Note("A/destination-exists-with-old-lines")
+	}
 	r.Sample(map[string]any{"level": "A", "aggregator": sp.conf(), "reporters": nrep, "reports": counts, "arbitrary_cancel": arbitraryCancel, "disk_fault": fmt.Sprintf("%+v", plan), "stalls": stalls, "unencodable_last_sample": encFault})
 
 	var (
@@ -263,6 +271,10 @@ func runC06A(r *R) {
 		t0 = time.Now()
 		disk = simfs.New()
 		disk.MkdirAll("/results", 0o755)
+		if stale {
+			// the destination exists already and holds the lines of an earlier run: a result file is this run's alone
+			disk.WriteFile(sp.Path, []byte("1.000\tstale\t1\t1\t1\t1\t1\t0\t1\t1\t0\t200\n{\"tag\":\"stale\",\"n\":1}\nleft over from the run before\n"))
+		}
 		p := plan
 		disk.Plans[sp.Path] = &p
 		GlobalFs.Set(disk)
